@@ -7,11 +7,26 @@ package sdl
 import (
 	"encoding/json"
 	"sort"
+	"strings"
 )
 
 // PkgPath is the import path of the generated package; default component names are
 // PkgPath + "/" + type name.
 const PkgPath = "verifbatch/progs"
+
+// AltPkgPath is a second generated package with the SAME package name ("progs"): a type
+// whose SDL name ends in AltSuffix is emitted there under the Go name of its main-package
+// namesake, so that two distinct types share their short name "progs.<Name>".
+const (
+	AltPkgPath = "verifbatch/alt/progs"
+	AltSuffix  = "_alt"
+)
+
+// IsAlt reports whether the SDL type name denotes a type of the alt package.
+func IsAlt(typeName string) bool { return strings.HasSuffix(typeName, AltSuffix) }
+
+// GoTypeName is the (unqualified) Go name of the type.
+func GoTypeName(typeName string) string { return strings.TrimSuffix(typeName, AltSuffix) }
 
 type Program struct {
 	ID        string      `json:"id"`
@@ -86,7 +101,8 @@ type Point struct {
 	Returns  []string `json:"returns,omitempty"`
 	Optional bool     `json:"optional,omitempty"`
 	Quals    []string `json:"quals,omitempty"`
-	Embed    []string `json:"embed,omitempty"` // carrier chain; element starting lower-case = unexported carrier
+	Embed    []string `json:"embed,omitempty"` // carrier chain; element starting lower-case = unexported carrier; element starting with "S" = a carrier type shared between several positions
+	GoField  string   `json:"goField,omitempty"`
 }
 
 // Custom is a field carrying a custom tag (C11): a user-supplied tag scanner must receive
@@ -98,6 +114,16 @@ type Custom struct {
 	Args     [][]string `json:"args,omitempty"` // each: name, values...
 	Embed    []string   `json:"embed,omitempty"`
 	Exported bool       `json:"exported"`
+}
+
+// GoName is the Go field name of the point (Field is its unique key within the type; two
+// points may share one Go field name when they live in a carrier type that is embedded at
+// two positions).
+func (p *Point) GoName() string {
+	if p.GoField != "" {
+		return p.GoField
+	}
+	return p.Field
 }
 
 func (p *Point) Single() bool { return p.Kind == KPtr || p.Kind == KIface || p.Kind == KAny }
@@ -221,7 +247,12 @@ func (p *Program) InstByID(id string) *Instance {
 }
 
 // DefaultName is the container's default name for an unnamed instance of type t.
-func DefaultName(typeName string) string { return PkgPath + "/" + typeName }
+func DefaultName(typeName string) string {
+	if IsAlt(typeName) {
+		return AltPkgPath + "/" + GoTypeName(typeName)
+	}
+	return PkgPath + "/" + typeName
+}
 
 // NameOf is the name under which the instance is registered.
 func (p *Program) NameOf(i *Instance) string {
